@@ -2,6 +2,7 @@ package bep44
 
 import (
 	"errors"
+	"sync"
 	"time"
 )
 
@@ -17,6 +18,9 @@ type Store interface {
 // decide when to store, or ignore them depending of the BEP 44 definition.
 // It is also in charge of removing expired items.
 type Wrapper struct {
+	// Makes the read-check-write in Put and the read-expire in Get atomic with respect to each
+	// other.
+	mu  sync.Mutex
 	s   Store
 	exp time.Duration
 }
@@ -29,6 +33,9 @@ func (w *Wrapper) Put(i *Item) error {
 	if err := Check(i); err != nil {
 		return err
 	}
+
+	w.mu.Lock()
+	defer w.mu.Unlock()
 
 	is, err := w.s.Get(i.Target())
 	if errors.Is(err, ErrItemNotFound) {
@@ -48,6 +55,9 @@ func (w *Wrapper) Put(i *Item) error {
 }
 
 func (w *Wrapper) Get(t Target) (*Item, error) {
+	w.mu.Lock()
+	defer w.mu.Unlock()
+
 	i, err := w.s.Get(t)
 	if err != nil {
 		return nil, err
